@@ -740,6 +740,11 @@ package ring
 //@   assigns buff, p1
 //@   ensures val(p1) == uf_divround(old(val(p0)))
 
+//@ afunc BasisExtender.ModDownQPtoQNTT
+//@   trusted opaque at the abstract level (the rounded division by P; coefficient-level contract: property C02): writes the output only; its value is NAMED as a function of the two parts of the input (uf_moddown)
+//@   assigns p2Q
+//@   ensures val(p2Q) == uf_moddown(old(val(p1Q)), old(val(p1P)))
+
 //@ afunc Ring.MulRNSScalarMontgomery
 //@   trusted the Montgomery product with an RNS scalar; the ring value and the Montgomery exponent of the scalar are NAMED by uninterpreted functions of its contents (uf_rnsval, uf_rnsmexp)
 //@   assigns p2
